@@ -2,6 +2,7 @@
 // Pure functions of the case bytes (no rand(), no clock).
 #pragma once
 #include <algorithm>
+#include <cstdlib>
 #include <string>
 #include <vector>
 
@@ -44,11 +45,16 @@ struct Params {
 // legal parameter vector for a kind; n = |S|, total = text bytes
 inline void gen_params(Src &s, Params &p, size_t n, size_t total, bool allow_clamp, bool allow_memalloc) {
   static const uint32_t buckets[] = {2, 3, 4, 5, 8, 16, 7, 32, 4096};
-  uint32_t b = s.pick({40, 25, 25, 25, 25, 25, 15, 10, 6, 20, 20, 20});
+  uint32_t b = s.pick({40, 25, 25, 25, 25, 25, 15, 10, 6, 20, 20, 20, 40});
   if (b < 9) p.bucket = buckets[b];
   else if (b == 9) p.bucket = n > 2 ? (uint32_t)n - 1 : 2;
   else if (b == 10) p.bucket = n >= 2 ? (uint32_t)n : 2;
-  else p.bucket = (uint32_t)n + 1;
+  else if (b == 11) p.bucket = (uint32_t)n + 1;
+  else {
+    // a divisor of n: the last bucket is exactly full
+    p.bucket = n >= 2 ? (uint32_t)n : 2;
+    for (uint32_t d = 2 + s.byte() % 7, k = 0; k < 16; k++, d++) if (d >= 2 && n % d == 0) { p.bucket = d; break; }
+  }
   if (p.bucket < 2) p.bucket = 2;
   if (allow_clamp) {
     uint32_t c = s.pick({200, 28, 28});
@@ -144,12 +150,16 @@ struct ProgSrc {
   }
 };
 
-inline std::vector<std::string> gen_strings(Src &s, int nclass, bool thorough, GenInfo &gi) {
+inline std::vector<std::string> gen_strings(Src &s, int nclass, bool thorough, GenInfo &gi, bool prefer_textlike = false) {
   std::vector<std::string> S;
   int asize = 0;
   std::vector<uint8_t> A = gen_alphabet(s, asize);
   // families; index 0 (simplest) = incremental program
-  int family = s.pick({140, 16, 10, 16, 16, 16, 22, 10, 10});
+  int family = s.pick({120, 14, 8, 14, 14, 14, 20, 10, 10, 32});
+  // kinds whose table-driven decoder only works on text-like input (KNOWN_FINDINGS F01-F03) are
+  // mostly fed that family, so that they are still explored where they work
+  if (prefer_textlike && s.byte() % 4 != 3) family = 9;
+  if (const char *ff = getenv("VERIF_FAMILY")) family = atoi(ff);  // development aid
   int lo = n_lo[nclass], hi = n_hi[nclass];
   size_t n = lo + s.below(hi - lo + 1);
   uint64_t seed = fnv(s.p, s.n);
@@ -264,6 +274,26 @@ inline std::vector<std::string> gen_strings(Src &s, int nclass, bool thorough, G
           t += (char)B[k];
         }
         total += L + 1;
+        S.push_back(t);
+      }
+      break;
+    }
+    case 9: {  // text-like: lengths 3-27 over a 42-letter alphabet with skewed (geometric-ish) statistics
+      XorShift x(seed ^ 0x7e57);
+      static const char *letters = "etaoinshrdlcumwfgypbvkjxqzETAOINSHRDLC0123_-";
+      for (size_t k = 0; k < n; k++) {
+        size_t L = 3 + x.below(25);
+        std::string t;
+        for (size_t q = 0; q < L; q++) {
+          uint32_t r2 = x.below(1000), idx = 0, acc = 0;
+          // P(idx) ~ 0.88^idx
+          static uint32_t cum[44];
+          static bool init = false;
+          if (!init) { double w = 1, tot = 0; double ws[44]; for (int i = 0; i < 44; i++) { ws[i] = w; tot += w; w *= 0.88; } double a = 0; for (int i = 0; i < 44; i++) { a += ws[i]; cum[i] = (uint32_t)(a / tot * 1000); } init = true; }
+          (void)acc;
+          while (idx < 43 && r2 >= cum[idx]) idx++;
+          t += letters[idx];
+        }
         S.push_back(t);
       }
       break;
